@@ -335,13 +335,20 @@ def deref(expr, body="", src="", depth=3):
     return e
 
 
-def is_alias(expr, target, body, depth=3):
+def is_alias(expr, target, body, depth=3, param=False):
     """is `expr` the variable `target`, possibly through casts (`x as usize`) and `let tmp = x as usize;` hops in body"""
     e = strip_parens(expr)
+    first = True
     while depth >= 0:
         e = strip_parens(re.sub(r"\s+as\s+\w+$", "", e).strip())
         if e == target:
+            # a local that SHADOWS the target (`let size = size as u32;`) is the target only if it is initialised from it
+            # (param=True: target is a parameter of the fn, so a `let target = …` in the body is a shadowing)
+            shadow = let_expr(body, target) if (first and param) else None
+            if shadow is not None:
+                return strip_parens(re.sub(r"\s+as\s+\w+$", "", strip_parens(shadow)).strip()) == target
             return True
+        first = False
         if not re.fullmatch(r"[A-Za-z_]\w*", e):
             return False
         v = let_expr(body, e)
